@@ -12,6 +12,8 @@ CACHE = os.environ.get("SFVERIF_CACHE", "/var/tmp/sfverif-cache")
 LEAN_DIR = os.path.join(VERIF, "lean")
 HARNESS_DIR = os.path.join(VERIF, "harness")
 GUARD = "LIBSNDFILE_VERIF"
+# SFVERIF_COVERAGE=1 (tools/coverage.py): the same builds with gcov counters, kept apart from the ordinary ones by a "-cov" suffix
+COVERAGE = os.environ.get("SFVERIF_COVERAGE") == "1"
 
 VARIANTS = {
     # name: extra C flags
@@ -99,6 +101,9 @@ def _prune(keep_prefix):
 def ensure_lib(variant="asan"):
     """Return directory containing libsndfile.a built from the current working tree."""
     rh = repo_hash()
+    flags = VARIANTS[variant]
+    if COVERAGE:
+        variant, flags = variant + "-cov", flags + " --coverage"
     bdir = os.path.join(CACHE, "%s-%s" % (rh, variant))
     lib = os.path.join(bdir, "libsndfile.a")
     with Lock(os.path.join(CACHE, "locks", "%s-%s.lock" % (rh, variant))):
@@ -107,7 +112,6 @@ def ensure_lib(variant="asan"):
             return bdir
         shutil.rmtree(bdir, ignore_errors=True)
         os.makedirs(bdir)
-        flags = VARIANTS[variant]
         cfg = ["cmake", "-G", "Ninja", "-S", REPO, "-B", bdir, "-DCMAKE_BUILD_TYPE=None",
                "-DCMAKE_C_FLAGS=" + flags, "-DBUILD_TESTING=OFF", "-DBUILD_PROGRAMS=OFF",
                "-DBUILD_EXAMPLES=OFF", "-DENABLE_EXTERNAL_LIBS=OFF", "-DENABLE_MPEG=OFF",
@@ -150,7 +154,7 @@ def ensure_harness(variant="asan"):
         cmd = ["gcc", "-O1", "-g", "-fno-omit-frame-pointer", "-fsanitize=address", "-D%s=1" % GUARD,
                "-Wall", "-Wno-unused-function", "-I", os.path.join(REPO, "include"), "-I", os.path.join(bdir, "include"),
                "-I", os.path.join(REPO, "src"), "-I", os.path.join(bdir, "src"), "-I", bdir,
-               "-o", exe + ".tmp"] + srcs + [os.path.join(bdir, "libsndfile.a"), "-lm"]
+               "-o", exe + ".tmp"] + (["-DSFH_COVERAGE=1"] if COVERAGE else []) + srcs + [os.path.join(bdir, "libsndfile.a"), "-lm"] + (["-lgcov"] if COVERAGE else [])
         r = run(cmd, check=False)
         if r.returncode != 0:
             raise BuildError("harness does not compile against this tree", r.stdout)
